@@ -38,6 +38,19 @@ def reuse_probe(call, arrays):
     return first, notes
 
 
+def as_container(vals, kind):
+    """the same numbers as a float64 array, an int64 array (integral values only) or a plain Python list"""
+    if kind == "int64" and all(float(v).is_integer() for v in vals):
+        return np.array([int(v) for v in vals], dtype=np.int64)
+    if kind == "list":
+        return [float(v) for v in vals]
+    return np.array(vals, dtype=float)
+
+
+def pick_container(rng):
+    return rng.choice(["float64"] * 6 + ["int64", "int64", "list"])
+
+
 def reuse_failures(o, fail):
     if o.get("input_mutated"):
         fail("input-mutated", "an array handed in by the caller was modified")
@@ -194,6 +207,7 @@ class TrendUnit(Unit):
                     c["normalized"] = False
             if rng.random() < 0.3:
                 c["coef2"] = rng.choice(POLYS)
+            c["container"] = pick_container(rng)
             cases.append(c)
         return cases
 
@@ -202,11 +216,16 @@ class TrendUnit(Unit):
         x = np.array(c["x"], dtype=float)
         y = np.array(c["y"], dtype=float)
         try:
-            if c["linear"]:
+            if c.get("container", "float64") != "float64":
+                # the same numbers handed in as an int64 array / a Python list
+                xa, ya = as_container(c["x"], c["container"]), as_container(c["y"], c["container"])
+                (rx, ry), notes = (linear_trend(xa, ya, c["coef"][1], c["normalized"]) if c["linear"]
+                                   else trend(xa, ya, poly(c["coef"]), c["normalized"])), {}
+            elif c["linear"]:
                 (rx, ry), notes = reuse_probe(lambda a, b: linear_trend(a, b, c["coef"][1], c["normalized"]), [x, y])
             else:
                 (rx, ry), notes = reuse_probe(lambda a, b: trend(a, b, poly(c["coef"]), c["normalized"]), [x, y])
-            out = {"x": rx.tolist(), "y": ry.tolist()}
+            out = {"x": np.asarray(rx, dtype=float).tolist(), "y": np.asarray(ry, dtype=float).tolist()}
             out.update(notes)
             if "coef2" in c:
                 a1x, a1y = trend(rx.copy(), ry.copy(), poly(c["coef2"]), c["normalized"])
@@ -265,7 +284,7 @@ class NormalizeUnit(Unit):
             a = gens.values(rng, N) if rng.random() < 0.6 else gens.sorted_x(rng, N)
             lo = gens.dyadic(rng, -8, 8, 2)
             hi = lo + rng.randint(1, 64) / 4
-            cases.append({"a": a, "lo": lo, "hi": hi})
+            cases.append({"a": a, "lo": lo, "hi": hi, "container": pick_container(rng)})
         return cases
 
     def run(self, c):
@@ -274,8 +293,11 @@ class NormalizeUnit(Unit):
         try:
             with warnings.catch_warnings():
                 warnings.simplefilter("ignore")
-                r, notes = reuse_probe(lambda a_: normalize(a_, c["lo"], c["hi"]), [np.array(c["a"], dtype=float)])
-            out = {"out": r.tolist()}
+                if c.get("container", "float64") != "float64":      # the same numbers as an int64 array / a Python list
+                    r, notes = normalize(as_container(c["a"], c["container"]), c["lo"], c["hi"]), {}
+                else:
+                    r, notes = reuse_probe(lambda a_: normalize(a_, c["lo"], c["hi"]), [np.array(c["a"], dtype=float)])
+            out = {"out": np.asarray(r, dtype=float).tolist()}
             out.update(notes)
             return out
         except Exception as e:
@@ -355,7 +377,7 @@ Definition tr_match (tol : Qc) (m : res (list Qc * list Qc)) (o : obs (list Qc *
             l, r = bound(lr), bound(rr)
             if not lr and not rr and l > r and rng.random() < 0.7:
                 l, r = r, l
-            cases.append({"x": x, "y": y, "l": l, "r": r, "lr": lr, "rr": rr})
+            cases.append({"x": x, "y": y, "l": l, "r": r, "lr": lr, "rr": rr, "container": pick_container(rng)})
         return cases
 
     def run(self, c):
@@ -363,8 +385,12 @@ Definition tr_match (tol : Qc) (m : res (list Qc * list Qc)) (o : obs (list Qc *
         x = np.array(c["x"], dtype=float)
         y = np.array(c["y"], dtype=float)
         try:
-            (rx, ry), notes = reuse_probe(lambda a, b: truncate(a, b, c["l"], c["r"], c["lr"], c["rr"]), [x, y])
-            out = {"x": rx.tolist(), "y": ry.tolist()}
+            if c.get("container", "float64") != "float64":          # the same numbers as int64 arrays / Python lists
+                (rx, ry), notes = truncate(as_container(c["x"], c["container"]), as_container(c["y"], c["container"]),
+                                           c["l"], c["r"], c["lr"], c["rr"]), {}
+            else:
+                (rx, ry), notes = reuse_probe(lambda a, b: truncate(a, b, c["l"], c["r"], c["lr"], c["rr"]), [x, y])
+            out = {"x": np.asarray(rx, dtype=float).tolist(), "y": np.asarray(ry, dtype=float).tolist()}
             out.update(notes)
             return out
         except Exception as e:
